@@ -73,7 +73,11 @@ def _complete(ctx, dims, skeletons):
     pages = sorted(dims["pages"])
     skeletons = sorted(skeletons, key=lambda s: json.dumps(s, sort_keys=True))
     cases = []
+    # thorough: every skeleton that reaches a handler is completed twice (two target/program draws)
+    work = []
     for sk in skeletons:
+        work += [sk] * (ctx.pick(1, 2) if sk["hint"] != "none" else 1)
+    for sk in work:
         base = {k: sk[k] for k in ("ep", "method", "shape", "body")}
         base["subs"] = sorted(sk["subs"])
         base["flags"] = sorted(sk["flags"])
@@ -148,10 +152,14 @@ def _drive(ctx, drv, cases):
     return trace
 
 
-def _validate(ctx, trace, name, devs):
+def _validate(ctx, trace, name, devs, extra):
+    """TV in chunks; the self-test lines (negative ids) ride along in the last chunk."""
     flagged = []
-    for off in range(0, len(trace), CHUNK):
+    offs = list(range(0, len(trace), CHUNK))
+    for off in offs:
         chunk = trace[off:off + CHUNK]
+        if off == offs[-1]:
+            chunk = chunk + extra
         f = ctx.path("%s-%d.ndjson" % (name, off))
         vlib.write_ndjson(f, chunk)
         n, fl = ctx.validate_cases("RoutingTrace", "Routing.Trace.cfg", f, subst={"Deviations": devs}, timeout=1200)
@@ -159,15 +167,18 @@ def _validate(ctx, trace, name, devs):
             r["line"] = chunk[r["l"] - 1]
         flagged += fl
         os.remove(f)
-    return flagged
+    ctx.traces -= len(extra)
+    ctx.events -= len(extra)
+    return [f for f in flagged if f["line"]["id"] > 0], [f for f in flagged if f["line"]["id"] < 0]
 
 
 def _effectful(r):
     return [e for e in r["calls"] if e["t"] == "st"]
 
 
-def _selftest(ctx, trace, devs):
-    """Binding self-test: corrupt recorded lines and require that validation flags each."""
+def _selftest_lines(trace):
+    """Binding self-test material: recorded lines with one field corrupted / one event dropped, each
+    with the C31 invariant that has to reject it."""
     def first(pred):
         for r in trace:
             if pred(r):
@@ -180,41 +191,51 @@ def _selftest(ctx, trace, devs):
         for e in a["calls"]:
             if e["t"] == "auth" and e["name"] == "request":
                 e["allow"] = False       # storage mutated although the authorizer said no
-        muts.append(("deny-flipped", a))
+        muts.append(("deny-flipped", "DenyMeansNoEffect", a))
         b = copy.deepcopy(w)
         b["calls"] = [e for e in b["calls"] if e["t"] != "auth"]   # effect without any authorization
-        muts.append(("auth-dropped", b))
+        muts.append(("auth-dropped", "AuthorizedBeforeEffect", b))
         c = copy.deepcopy(w)
         for e in c["calls"]:
             if e["t"] == "auth":
                 e["op"], e["ro"] = "HeadBucket", True   # authorized under a name that does not cover the effect
-        muts.append(("wrong-op", c))
+        muts.append(("wrong-op", "AuthorizedBeforeEffect", c))
+        d = copy.deepcopy(w)
+        for e in d["calls"]:
+            if e["t"] == "auth":
+                e["ro"] = True                          # "read-only" operation that mutated
+        muts.append(("readonly-mutates", "ReadOnlyOpsDoNotMutate", d))
     g = first(lambda r: r["leaks"] and r["ep"] == "api" and r["prog"]["mode"] == "allow")
     if g:
         d = copy.deepcopy(g)
         for e in d["calls"]:
             if e["t"] == "auth":
                 e["k"] = "k2" if e["k"] != "k2" else "k1"     # data of another key than the authorized one
-        muts.append(("wrong-key", d))
+        muts.append(("wrong-key", "NoUnauthorizedData", d))
     h = first(lambda r: r["status"] == 200 and any(e["t"] == "auth" and e["name"] not in ("request", "deleteEntry") and not e["allow"]
                                                    for e in r["calls"]))
     if h:
         e0 = [e for e in h["calls"] if e["t"] == "auth" and e["name"] != "request" and not e["allow"]][0]
         k = copy.deepcopy(h)
         k["shown"] = k["shown"] + [e0["item"]]    # a denied item shown
-        muts.append(("denied-item-shown", k))
-    if len(muts) < 4:
+        muts.append(("denied-item-shown", "PerItemHooksExact", k))
+    if len(muts) < 5:
         raise vlib.Infra("binding self-test: not enough material in the trace (%d mutants)" % len(muts))
-    f = ctx.path("selftest.ndjson")
-    vlib.write_ndjson(f, [m for _, m in muts])
-    n, fl = ctx.validate_cases("RoutingTrace", "Routing.Trace.cfg", f, subst={"Deviations": devs})
-    ctx.traces -= n
-    ctx.events -= n
-    bad = {r["l"] for r in fl if r["verdict"] in ("mismatch", "violation")}
-    missed = [name for i, (name, _) in enumerate(muts) if i + 1 not in bad]
+    for i, (_, _, line) in enumerate(muts):
+        line["id"] = -(i + 1)
+    return muts
+
+
+def _selftest_check(ctx, muts, flagged):
+    got = {f["line"]["id"]: f for f in flagged}
+    missed = []
+    for name, inv, line in muts:
+        f = got.get(line["id"])
+        if f is None or f["verdict"] not in ("mismatch", "violation") or inv not in f.get("failed", []):
+            missed.append(name)
     if missed:
-        raise vlib.Infra("binding self-test: corrupted lines not flagged: %s" % missed)
-    ctx.log("binding self-test: %d corrupted lines, all flagged" % len(muts))
+        raise vlib.Infra("binding self-test: corrupted lines not rejected as expected: %s" % missed)
+    ctx.log("binding self-test: %d corrupted lines, each rejected by the intended invariant" % len(muts))
 
 
 def run(ctx):
@@ -234,11 +255,31 @@ def run(ctx):
     trace = _drive(ctx, drv, cases)
     hints = {c["id"]: c["hint"] for c in cases}
     # 4. TV against the model of the code (open deviations enabled)
-    flagged = _validate(ctx, trace, "tv", devs)
+    #    (the binding self-test lines are validated in the same TLC run)
+    muts = _selftest_lines(trace)
+    flagged, selfflagged = _validate(ctx, trace, "tv", devs, [m[2] for m in muts])
     ctx.evaluations = len(trace)
     # 5. binding self-test
-    _selftest(ctx, trace, devs)
-    # 6. coverage
+    _selftest_check(ctx, muts, selfflagged)
+    # 6. verdicts
+    for f in flagged:
+        line = f.pop("line")
+        if f["verdict"] == "finding":
+            ctx.finding(f["tag"], {"url": line["url"], "prog": line["prog"], "failed": f["failed"], "status": line["status"],
+                                   "leaks": line["leaks"],
+                                   "calls": [[e["t"], e["name"], e["op"], e["b"], e["k"], e["allow"]] for e in line["calls"]]})
+        else:
+            rp = ctx.path("replay-%d.ndjson" % line["id"])
+            vlib.write_ndjson(rp, [line])
+            what = {"mismatch": "the recorded call log is not what the model of the code (Routing.tla) produces; C31 invariants "
+                                "failing on it: %s" % (f.get("failed") or "none"),
+                    "violation": "C31 invariant(s) %s fail on the recorded call log" % f.get("failed"),
+                    "malformed": "case is not a case of the spec"}[f["verdict"]]
+            ctx.violation(rp, "%s: %s [route %s]; calls=%s status=%s changed=%s leaks=%s shown=%s prog=%s" % (
+                line["url"], what, f.get("route"),
+                [(e["t"], e["name"], e["op"], e["b"], e["k"], e["sb"], e["sk"], e["item"], e["allow"], e["ver"]) for e in line["calls"]],
+                line["status"], line["changed"], line["leaks"], line["shown"], line["prog"]))
+    # 7. coverage (enforced only when there is no violation to report: exit 2 must not mask exit 1)
     reached = [t for t in trace if any(e["t"] == "auth" for e in t["calls"])]
     effect = [t for t in reached if _effectful(t)]
     ops_allowed = collections.Counter(e["op"] for t in trace for e in t["calls"]
@@ -271,33 +312,15 @@ def run(ctx):
     unauth = all_ops - set(ops_allowed)
     missing = all_ops - ops_effect
     ctx.extra["operations_without_observed_storage_call"] = sorted(missing)
-    if unauth or len(missing) > ctx.pick(3, 0):
+    if not ctx.violations and (unauth or len(missing) > ctx.pick(3, 0)):
         raise vlib.Infra("coverage: operations never authorized: %s; never observed with a storage call after an allow: %s"
                          % (sorted(unauth), sorted(missing)))
-    if len(hooks) < 5 or denied_items == 0 or ctx.extra["cases_state_changed"] == 0 or ctx.extra["cases_object_data_returned"] == 0:
+    if not ctx.violations and (len(hooks) < 5 or denied_items == 0 or ctx.extra["cases_state_changed"] == 0 or ctx.extra["cases_object_data_returned"] == 0):
         raise vlib.Infra("coverage too thin: hooks=%s denied_items=%d changed=%d data=%d" %
                          (dict(hooks), denied_items, ctx.extra["cases_state_changed"], ctx.extra["cases_object_data_returned"]))
     for t in (reached[0], effect[len(effect) // 2]):
         ctx.sample({k: t[k] for k in ("url", "prog", "status", "changed", "leaks", "shown")} |
                    {"calls": [(e["t"], e["name"], e["op"], e["b"], e["k"], e["allow"]) for e in t["calls"]]})
-    # 7. verdicts
-    for f in flagged:
-        line = f.pop("line")
-        if f["verdict"] == "finding":
-            ctx.finding(f["tag"], {"url": line["url"], "prog": line["prog"], "failed": f["failed"], "status": line["status"],
-                                   "leaks": line["leaks"],
-                                   "calls": [[e["t"], e["name"], e["op"], e["b"], e["k"], e["allow"]] for e in line["calls"]]})
-        else:
-            rp = ctx.path("replay-%d.ndjson" % line["id"])
-            vlib.write_ndjson(rp, [line])
-            what = {"mismatch": "the recorded call log is not what the model of the code (Routing.tla) produces; C31 invariants "
-                                "failing on it: %s" % (f.get("failed") or "none"),
-                    "violation": "C31 invariant(s) %s fail on the recorded call log" % f.get("failed"),
-                    "malformed": "case is not a case of the spec"}[f["verdict"]]
-            ctx.violation(rp, "%s: %s [route %s]; calls=%s status=%s changed=%s leaks=%s shown=%s prog=%s" % (
-                line["url"], what, f.get("route"),
-                [(e["t"], e["name"], e["op"], e["b"], e["k"], e["sb"], e["sk"], e["item"], e["allow"], e["ver"]) for e in line["calls"]],
-                line["status"], line["changed"], line["leaks"], line["shown"], line["prog"]))
     ctx.assumptions += [
         "symbols (buckets, keys, sub-resource values, header values, bodies) are concretised by harness/cmd/routing with one representative each",
         "storage state is restored from a template after every request that changed the metadata projection",
